@@ -8,8 +8,10 @@
 #include <libcellml>
 
 #include <libxml/parser.h>
+#include <unistd.h>
 
 #include <algorithm>
+#include <cmath>
 #include <functional>
 #include <iostream>
 #include <sstream>
@@ -53,6 +55,36 @@ std::string ruleName(Rule r)
     return "rule#" + std::to_string(static_cast<int>(r));
 }
 #define R(n) Rule::n
+
+// Decisions taken after the kit generator has run (library models, added features) would mostly read past the end of the
+// tape and get the simplest choice every time. They are served from values drawn at the start of the tape and, when those
+// are used up, from a hash chain seeded by them: still a pure function of the tape.
+struct PoolSrc: Src
+{
+    std::vector<uint64_t> pool;
+    size_t pos = 0;
+    uint64_t chain = 0;
+    PoolSrc(Src &main, size_t n)
+    {
+        for (size_t i = 0; i < n; ++i) {
+            pool.push_back(main.below(1ULL << 32));
+            chain = chain * 0x9E3779B97F4A7C15ULL + pool.back() + 1;
+        }
+    }
+
+protected:
+    uint64_t raw(uint64_t n) override
+    {
+        if (pos < pool.size()) {
+            return pool[pos++] % n;
+        }
+        chain ^= chain >> 33;
+        chain *= 0xff51afd7ed558ccdULL;
+        chain ^= chain >> 29;
+        chain += 0x9E3779B97F4A7C15ULL;
+        return (chain >> 16) % n;
+    }
+};
 
 // ------------------------------------------------------------------------------------------------ context
 
@@ -414,6 +446,26 @@ std::string issueClass(Rule r, const std::string &description)
     return ruleName(r) + ":" + s;
 }
 
+// "The mismatch is: second^0, metre^-0." : every reported exponent difference prints as zero (std::to_string keeps six decimals)
+bool unitsMismatchIsRoundingResidue(const std::string &description)
+{
+    size_t p = description.find("The mismatch is: ");
+    if (p == std::string::npos) {
+        return false;
+    }
+    bool any = false;
+    for (size_t i = description.find('^', p); i != std::string::npos; i = description.find('^', i + 1)) {
+        if (description.compare(i - 2, 2, "10") == 0 && description.compare(i - 5, 5, "of 10") == 0) {
+            continue; // the multiplication factor is not a dimension
+        }
+        any = true;
+        if (std::fabs(strtod(description.c_str() + i + 1, nullptr)) > 1e-6) {
+            return false;
+        }
+    }
+    return any;
+}
+
 std::string ctxText(const Ctx &ctx)
 {
     std::string t = specToText(ctx.base);
@@ -454,6 +506,99 @@ long dropUnsoundMappings(ModelSpec &m)
         }
     }
     return dropped;
+}
+
+// An import element with an imported units definition (used by a new variable) and an imported component that is the
+// encapsulated child of a local component and connected to it through a placeholder variable.
+void addImportedEntities(ModelSpec &m, Src &src)
+{
+    ImportSpec is;
+    is.url = src.flip(50) ? "lib0.cellml" : "sub/lib1.cellml";
+    m.imports.push_back(is);
+    UnitsSpec u;
+    u.name = "imp_units";
+    u.import = 0;
+    u.importRef = "shared_units";
+    bool front = src.flip(50);
+    m.units.insert(front ? m.units.begin() : m.units.end(), u);
+    std::vector<size_t> hosts;
+    for (size_t ci = 0; ci < m.comps.size(); ++ci) {
+        if (m.comps[ci].import < 0) {
+            hosts.push_back(ci);
+        }
+    }
+    if (hosts.empty()) {
+        return;
+    }
+    size_t host = hosts[src.below(hosts.size())];
+    VarSpec hv;
+    hv.name = "to_import";
+    hv.units = src.flip(50) ? "imp_units" : "second";
+    hv.iface = "private";
+    m.comps[host].vars.push_back(hv);
+    CompSpec ic;
+    ic.name = "imp_component";
+    ic.import = 0;
+    ic.importRef = "shared_component";
+    ic.parent = static_cast<int>(host);
+    if (m.depthOf(ic.parent) >= 3 || src.flip(30)) {
+        ic.parent = m.comps[host].parent; // a sibling of the host instead of its child
+        m.comps[host].vars.back().iface = "public";
+    }
+    VarSpec pv;
+    pv.name = "placeholder";
+    ic.vars.push_back(pv);
+    m.comps.push_back(ic);
+    ConnSpec cs;
+    cs.c1 = static_cast<int>(host);
+    cs.c2 = static_cast<int>(m.comps.size()) - 1;
+    MapSpec ms;
+    ms.v1 = static_cast<int>(m.comps[host].vars.size()) - 1;
+    ms.v2 = 0;
+    cs.maps.push_back(ms);
+    m.conns.push_back(cs);
+}
+
+// Further resets (unique orders, variables of the component, small values); mapped variables are preferred so that the
+// connected variable sets the order rule talks about exist.
+bool addMoreResets(ModelSpec &m, Src &src)
+{
+    int order = 100;
+    bool added = false;
+    for (size_t ci = 0; ci < m.comps.size(); ++ci) {
+        auto &c = m.comps[ci];
+        if (c.import >= 0 || c.vars.empty() || !src.flip(45)) {
+            continue;
+        }
+        std::vector<std::string> names;
+        for (const auto &v : c.vars) {
+            names.push_back(v.name);
+        }
+        std::vector<int> mapped;
+        for (const auto &cn : m.conns) {
+            for (const auto &mp : cn.maps) {
+                if (cn.c1 == static_cast<int>(ci)) {
+                    mapped.push_back(mp.v1);
+                }
+                if (cn.c2 == static_cast<int>(ci)) {
+                    mapped.push_back(mp.v2);
+                }
+            }
+        }
+        size_t n = 1 + src.below(2);
+        for (size_t k = 0; k < n && c.resets.size() < 3; ++k) {
+            ResetSpec r;
+            r.var = !mapped.empty() && src.flip(70) ? mapped[src.below(mapped.size())] : static_cast<int>(src.below(c.vars.size()));
+            r.testVar = static_cast<int>(src.below(c.vars.size()));
+            r.hasOrder = true;
+            r.order = order++;
+            r.testValue = simpleValue(src, names, src.flip(50));
+            r.resetValue = simpleValue(src, names, src.flip(50));
+            c.resets.push_back(r);
+            added = true;
+        }
+    }
+    return added;
 }
 
 // A defect of the validator that makes valid base models fail: the identifier of an import source that is shared by
@@ -841,6 +986,11 @@ void registerIdentFamilies()
                    ap.desc = "units " + q(m.units[static_cast<size_t>(s.ui)].name) + " renamed (with all references) to " + q(badIdent(kind, aux));
                    renameUnits(m, s.ui, badIdent(kind, aux));
                    ap.accept = identRules(kind, {R(UNITS_NAME_VALUE)}, {R(UNITS_NAME)});
+                   if (s.mi >= 0) {
+                       // a library definition is only reached through a reference, and a name that is no identifier makes
+                       // every reference to it one that is no identifier either (2.6.1.1): the same fault seen from its user
+                       ap.accept.insert(R(UNIT_UNITS_REFERENCE));
+                   }
                    return true;
                });
         FAMILY("ident." + kn + ":import-units.name",
@@ -1196,7 +1346,8 @@ std::vector<IdSlot> idSlots(const ModelSpec &m)
             t.ci = static_cast<int>(ci);
             add(t);
         }
-        for (size_t k = 0; k < c.vars.size(); ++k) {
+        // the variables of an imported component are placeholders of the API (targets of mappings), not part of a document
+        for (size_t k = 0; k < c.vars.size() && c.import < 0; ++k) {
             IdSlot t;
             t.kind = "variable";
             t.ci = static_cast<int>(ci);
@@ -2515,6 +2666,12 @@ void mathSites(const Ctx &ctx, std::vector<Site> &out)
 
 bool applyMathFault(const Frag &f, Ctx &ctx, const Site &s, uint64_t aux, Applied &ap)
 {
+    if (f.name == "xml:malformed" && s.mi >= 0) {
+        // Not this property's subject: Importer::resolveImports() dereferences a null root node in
+        // findComponentCnUnitsNames() (utilities.cpp) when the math of an imported component is not well-formed XML.
+        ctx.counts["excluded:ubsan:null-member-call|libcellml::findComponentCnUnitsNames (math of an imported component is not well-formed; crash in Importer::resolveImports)"] += 1;
+        return false;
+    }
     ModelSpec &m = ctx.m(s.mi);
     CompSpec &c = m.comps[static_cast<size_t>(s.ci)];
     FragEnv env;
@@ -2649,19 +2806,26 @@ void run(Src &src, Case &c)
     registerAll();
     const auto &cat = catalogue();
 
-    // ---- plan (start of the tape)
-    const unsigned p = static_cast<unsigned>(src.below(100));
+    // ---- plan (start of the tape): few reads, so that short tapes leave something for the model generator; everything
+    // chosen later (which faults, where, library content) is derived from these values by hashing
+    const uint64_t flags = src.below(1ULL << 32);
+    auto flag = [&](uint64_t k, unsigned pct) { return flags != 0 && mix64(flags * 31 + k) % 100 < pct; };
+    const unsigned p = static_cast<unsigned>(flags % 100);
     const int profile = p < 45 ? 0 : (p < 88 ? 1 : 2); // 0: structure only (no MathML: cheap), 1: small models with math and resets, 2: everything
-    const bool wantResolved = src.flip(50);
-    const bool sweep = src.flip(15); // one family at every applicable location instead of several families
-    const bool keepSharedImportId = src.flip(12);
-    const bool oddHref = src.flip(6);
+    const bool wantResolved = flag(1, 50);
+    const bool sweep = flag(2, 15); // one family at every applicable location instead of several families
+    const bool keepSharedImportId = flag(3, 12);
+    const bool oddHref = flag(4, 6);
+    const bool addImports = flag(5, 40);
+    const bool addResets = flag(6, 60);
+    const uint64_t fseed = src.below(1ULL << 32) + (src.below(1ULL << 32) << 32);
     const size_t maxFaults = 12;
     std::vector<uint64_t> pre;
     for (size_t i = 0; i < 4 * maxFaults; ++i) {
-        pre.push_back(src.below(1ULL << 32));
+        pre.push_back(fseed == 0 ? 0 : mix64(fseed + 0x9E3779B97F4A7C15ULL * i) >> 16);
     }
     const size_t nFaults = profile == 0 ? 10 : (profile == 1 ? 4 : 3);
+    PoolSrc late(src, 2);
 
     GenOpts opt;
     if (profile == 0) {
@@ -2681,7 +2845,7 @@ void run(Src &src, Case &c)
     if (oddHref && !ctx.base.imports.empty()) {
         // legal by XLink 5.4 (characters outside the URI repertoire are escaped by the processor), unusual
         static const std::vector<std::string> odd = {"caf\xC3\xA9/lib.cellml", "my models/lib 1.cellml"};
-        ctx.base.imports[0].url = src.pick(odd);
+        ctx.base.imports[0].url = late.pick(odd);
         c.cls("base:href-needing-xlink-escaping");
     }
     if (sharedImportSourceWithId(ctx.base)) {
@@ -2696,9 +2860,19 @@ void run(Src &src, Case &c)
             c.count("excluded:C04.false-positive|XML_ID_ATTRIBUTE:Duplicated-identifier-attribute-''-has-been-found-in:*import-source*");
         }
     }
+    // Features the kit generator produces rarely are added here, valid by construction, so that the families that need them are reached.
+    if (ctx.base.imports.empty() && addImports) {
+        addImportedEntities(ctx.base, late);
+        c.cls("base:imports-added-by-harness");
+    }
+    if (profile >= 1 && addResets) {
+        if (addMoreResets(ctx.base, late)) {
+            c.cls("base:resets-added-by-harness");
+        }
+    }
     ctx.resolved = wantResolved && !ctx.base.imports.empty();
     if (ctx.resolved) {
-        makeLibs(ctx, src, profile >= 1, profile >= 1);
+        makeLibs(ctx, late, profile >= 1, profile >= 1);
     }
     for (const auto &e : ctx.counts) {
         c.count(e.first, e.second);
@@ -2719,6 +2893,9 @@ void run(Src &src, Case &c)
         if (v.issues != 0) {
             // first ERROR (or first issue) localises the finding
             std::string cls = v.errors.empty() ? "non-error-issue" : issueClass(v.errors[0].first, v.errors[0].second);
+            if (!v.errors.empty() && unitsMismatchIsRoundingResidue(v.errors[0].second)) {
+                cls = "MAP_VARIABLES_ELEMENT:units-mismatch-that-is-a-rounding-residue";
+            }
             c.hash = hashStr(c.text);
             c.fail("C04.false-positive|" + cls, "a valid model is reported with " + std::to_string(v.issues) + " issue(s):\n" + v.text + baseText);
             return;
@@ -2733,9 +2910,13 @@ void run(Src &src, Case &c)
         uint64_t aux;
     };
     std::vector<Chosen> chosen;
-    auto familyAllowed = [&](const Family &f) { return profile != 0 || !f.math; };
+    // Profile 0 has no MathML (cheap): families that need math or resets are left to the other profiles, which in turn
+    // prefer them (the structure families get their volume from profile 0).
+    bool mathOnly = false;
+    auto familyAllowed = [&](const Family &f) { return profile == 0 ? !f.math : (!mathOnly || f.math); };
     auto pickFamily = [&](uint64_t sel, std::vector<Site> &sites) -> int {
         size_t n = cat.size();
+        mathOnly = profile != 0 && (sel >> 24) % 100 < 65;
         size_t start = sel % n;
         size_t stride = 1 + 2 * ((sel / n) % 50); // walk the catalogue from a random start with a random odd stride
         for (size_t j = 0; j < n; ++j) {
@@ -2761,7 +2942,7 @@ void run(Src &src, Case &c)
             for (size_t i = 0; i < n; ++i) {
                 // evenly spread over the site list when it is longer than the cap
                 size_t si = (start + i * std::max<size_t>(1, sites.size() / n)) % sites.size();
-                chosen.push_back({static_cast<size_t>(fi), sites[si], mix64(pre[2] + (pre[3] << 32) + i)});
+                chosen.push_back({static_cast<size_t>(fi), sites[si], mix64((pre[2] ^ (pre[3] << 16)) + i)});
             }
             c.cls("mode=sweep");
             if (n == sites.size()) {
@@ -2775,7 +2956,7 @@ void run(Src &src, Case &c)
             if (fi < 0) {
                 continue;
             }
-            chosen.push_back({static_cast<size_t>(fi), sites[pre[4 * i + 1] % sites.size()], pre[4 * i + 2] + (pre[4 * i + 3] << 32)});
+            chosen.push_back({static_cast<size_t>(fi), sites[pre[4 * i + 1] % sites.size()], pre[4 * i + 2] ^ (pre[4 * i + 3] << 16)});
         }
         c.cls("mode=sample");
     }
@@ -2786,7 +2967,14 @@ void run(Src &src, Case &c)
         const Family &fam = cat[ch.fam];
         Ctx fc = ctx;
         Applied ap;
-        if (!fam.apply(fc, ch.site, ch.aux, ap)) {
+        bool applied = fam.apply(fc, ch.site, ch.aux, ap);
+        for (const auto &e : fc.counts) {
+            long before = ctx.counts.count(e.first) != 0 ? ctx.counts[e.first] : 0;
+            if (e.second > before) {
+                c.count(e.first, e.second - before);
+            }
+        }
+        if (!applied) {
             c.count("fault-not-applicable-at-site");
             continue;
         }
@@ -2795,9 +2983,10 @@ void run(Src &src, Case &c)
         if (ap.post) {
             ap.post(fb);
         }
-        if (!fb.importerClean && !ap.importerMayFail) {
-            c.fail("C04.setup|import-resolution-of-faulted-model|" + fam.name, fb.importerText + "\n" + ap.desc);
-            return;
+        if (!fb.importerClean) {
+            // expected for faults on import references and inside library models: the importer has its own checks; what
+            // counts here is what the validator says about the model as the importer left it
+            c.count("importer-reported-issues-on-faulted-model");
         }
         Verdict v = validate(fb.base.model);
         c.count("validations");
@@ -2833,10 +3022,22 @@ void run(Src &src, Case &c)
     c.nontrivial = ctx.base.comps.size() >= 2 && anyNontrivial;
 }
 
+void init()
+{
+    // C04_LIST_FAMILIES=1 .build/asan/h/C04 > bin/plans.d/C04.families : the catalogue, one family per line (class floors of the plan)
+    if (getenv("C04_LIST_FAMILIES") != nullptr) {
+        registerAll();
+        for (const auto &f : catalogue()) {
+            std::cout << f.name << "\n";
+        }
+        std::cout.flush();
+        _exit(0);
+    }
+}
+
 void extraEvidence(std::ostream &o)
 {
     registerAll();
-    o << ",\"x_fault_families\":" << catalogue().size();
     o << ",\"x_family_validations\":{";
     bool first = true;
     for (const auto &f : catalogue()) {
@@ -2868,7 +3069,7 @@ Property property = {
     {"acceptable rule sets are written from the CellML 2.0 clause a fault breaks plus the neighbouring clauses of the same requirement (see notes/C04.md)",
      "rules the validator does not implement (exponent / multiplier text, encapsulation and connection structure that the object model cannot express) are not enumerated",
      "x_family_validations counts include re-runs made while shrinking a failure"},
-    nullptr,
+    init,
     extraEvidence,
 };
 }
